@@ -549,6 +549,10 @@ fn b4_single_issuer_inner() -> Result<Out, String> {
     let r = Ring::new(4, SETUP_SINGLE_ISSUER, 0).map_err(|e| format!("setup: {e}"))?;
     let (pr, pw) = pipe();
     r.push(poll_add(pr, 1, false));
+    // the submitter is the thread that created the ring, also before it ever submitted
+    let fd0 = r.fd;
+    let first = std::thread::spawn(move || sys(SYS_ENTER, [fd0 as i64, 1, 0, 0, 0, 0])).join().unwrap();
+    ensure!(first == -(libc::EEXIST as i64), "enter(to_submit=1) from another thread before the creator ever entered returned {first}, expected -EEXIST");
     let n = r.enter(1, 0, 0, None);
     ensure!(n == 1, "first enter by the creating thread returned {n}");
     r.push(poll_add(pr, 2, false));
